@@ -210,6 +210,9 @@ type c14sLoc struct {
 type c14sScenario struct {
 	Locs   []c14sLoc `json:"locs"`
 	Listed [][]int   `json:"listed"` // per server: indexes of the locations it lists
+	// Between: while the configuration is being applied (locations already replaced, servers not
+	// yet updated) each server that is already listening gets one request
+	Between bool `json:"between,omitempty"`
 	Reqs   []struct {
 		Srv  int    `json:"srv"`
 		Host string `json:"host"`
@@ -227,7 +230,7 @@ var (
 var c14sAddrs = []string{"127.0.3.1:0", "127.0.3.2:0"}
 
 func genC14s(t *rapid.T) c14sScenario {
-	sc := c14sScenario{}
+	sc := c14sScenario{Between: rapid.IntRange(0, 9).Draw(t, "between") < 7}
 	hostPool := []string{"aa.test", "bb.test", "cc.test"}
 	prefixPool := []string{"/a", "/a/b", "/b", "/api", "/search?type=img", "/a%20b", "/q?"}
 	n := rapid.IntRange(1, 5).Draw(t, "nLocs")
@@ -333,9 +336,26 @@ func execC14s(sc c14sScenario) *vstat.Outcome {
 		out.Class("rejected_by_validate")
 		return out
 	}
-	if err := applyConfig(cfg); err != nil {
+	var between func()
+	inWindow := 0
+	if sc.Between {
+		between = func() {
+			// what these requests get is not judged (the instance is half-way between two
+			// configurations); what matters is that they leave nothing behind
+			for s := range sc.Listed {
+				if addr := listenAddr(c14sAddrs[s]); addr != "" {
+					_ = do(c14sCl, reqSpec{Method: "POST", Addr: addr, Host: "aa.test", URI: "/a/b/x", Body: []byte("x")})
+					inWindow++
+				}
+			}
+		}
+	}
+	if err := applyConfigBetween(cfg, between); err != nil {
 		out.Inconclusive = true
 		return out
+	}
+	if inWindow > 0 {
+		out.Class("request_between_location_and_server_update")
 	}
 	nontrivial := false
 	for i, rq := range sc.Reqs {
